@@ -65,7 +65,7 @@ static void set08W8(const int *d, vcase *c)    /* 8x8, natural order: every arra
 static void set08Wd(const int *d, vcase *c)    /* deviation-1 patterns at the lengths around typical requirements: multiples of 4 only */
 { set_base(c, d[0], d[1], 0, 0, d[2], d[3], 0); c->lworkmode = 1; c->lwork = 4 * (long)(d[4] + 1) * 8; c->align = d[5] * 4; c->fest = 1; c->tune[6] = 1; c->aux2 = 0x00; }
 static void set08Q(const int *d, vcase *c)     /* size query */
-{ set_base(c, d[0], d[1], d[2], 1, d[3], d[4], d[5]); c->lworkmode = 2; c->lwork = -1; c->equil = d[6]; c->fact = d[7]; c->fest = FEST[d[8]]; c->tune[6] = c->fest; if (d[6]) c->vals = 4; }
+{ set_base(c, d[0], d[1], d[2], 1, d[3], d[4], d[5]); c->lworkmode = 2; c->lwork = -1; c->equil = d[6]; c->fact = d[7]; c->fest = FEST[d[8]]; c->tune[6] = c->fest; if (d[6]) c->vals = 4; c->aux2 = (d[1] + d[3]) & 1; }   /* aux2: the ILU driver's row permutation (none / MC64) */
 static void set08K(const int *d, vcase *c)     /* k-th growth request fails under library allocation */
 { set_base(c, d[0], d[1], d[2], d[3], d[4], d[5], d[6]); c->lworkmode = 3; c->k = d[7] + 1; c->fest = 1; c->tune[6] = 1; }
 static void set08W12(const int *d, vcase *c)   /* 12x12, relaxed supernodes of up to 10 columns: one supernode block can exceed a (reduced) growth step of the workspace allocator */
@@ -194,7 +194,7 @@ static void run_C08(const vcase *c, vres *r)
         xs s; xs_init(&s, T, n, c->pat, c->vals, c->stor); s.ilu = c->aux;
         dmat B; make_rhs(T, &s.A_orig, 0, c->rhs, 1, &B); xs_set_rhs(&s, &B, 0, 0);
         superlu_options_t opt;
-        if (c->aux) { ilu_opts(&opt); opt.ColPerm = COLAMD; opt.RowPerm = NOROWPERM; } else xs_options(c, &opt, &s);
+        if (c->aux) { ilu_opts(&opt); opt.ColPerm = COLAMD; opt.RowPerm = c->aux2 ? LargeDiag_MC64 : NOROWPERM; } else xs_options(c, &opt, &s);
         opt.Equil = c->equil ? YES : NO; opt.Fact = DOFACT;
         memset(&s.Glu, 0, sizeof s.Glu);
         if (c->fact != 0) { xs_call(&s, &opt); if (s.info != 0) { xs_destroy(&s); r->status = 2; return; } }
@@ -202,6 +202,7 @@ static void run_C08(const vcase *c, vres *r)
         opt.Fact = fa[c->fact];
         /* snapshot */
         dmat A0, B0, X0; xs_current_A(&s, &A0); dn_to_dense(&s.B, &B0); dn_to_dense(&s.X, &X0);
+        int_t ind0[NMAX * NMAX], ptr0[NMAX + 1]; memcpy(ind0, s.S.ind, sizeof(int_t) * s.S.nnz); memcpy(ptr0, s.S.ptr, sizeof(int_t) * (n + 1));
         int pc[NMAX], pr[NMAX], et[NMAX]; memcpy(pc, s.perm_c, sizeof pc); memcpy(pr, s.perm_r, sizeof pr); memcpy(et, s.etree, sizeof et);
         char eq = s.equed[0], Rb[sizeof s.Rbuf], Cb[sizeof s.Cbuf]; memcpy(Rb, s.Rbuf, sizeof Rb); memcpy(Cb, s.Cbuf, sizeof Cb);
         uint64_t hLU = s.have_LU ? hash_LU(T, &s.L, &s.U) : 0; int had = s.have_LU;
@@ -217,7 +218,8 @@ static void run_C08(const vcase *c, vres *r)
         {
             dmat A1, B1, X1; xs_current_A(&s, &A1); dn_to_dense(&s.B, &B1); dn_to_dense(&s.X, &X1);
             const char *what = NULL;
-            if (memcmp(A0.a, A1.a, sizeof A0.a)) what = "A values";
+            if (memcmp(ind0, s.S.ind, sizeof(int_t) * s.S.nnz) || memcmp(ptr0, s.S.ptr, sizeof(int_t) * (n + 1))) what = "A row indices";
+            else if (memcmp(A0.a, A1.a, sizeof A0.a)) what = c->equil ? "A values" : "A values with Equil off";
             else if (memcmp(B0.a, B1.a, sizeof B0.a)) what = "B";
             else if (memcmp(X0.a, X1.a, sizeof X0.a)) what = "X";
             else if (memcmp(pc, s.perm_c, sizeof(int) * n)) what = "perm_c";
@@ -318,8 +320,8 @@ static const family F07T[] = {
     { "capacity sweep for complete LU (library allocation): 16x16 arrow block of order {8,10} + tridiagonal block, 0..72 explicit zeros in the fill region x type4 x fill estimate{1,2,3} x tune{(2,4,1..),(3,8,2..),(2,4,4..)}", 5, { 2, 73, 4, 3, 3 }, set07Z },
     { "library allocation, orders 12 and 16: (6 structured + 400 generated patterns) x {NATURAL,COLAMD} x vals2 x tune5 x type4 x fill estimate{1,2,3}", 6, { 12 + 800, 2, 5, 4, 3, 2 }, set07L12 },
     { "DEV_1(BASE(8)), NATURAL order x vals2 x tune4 x type4 x scenario x fill estimate 1 x {LU, ILU with fill factor 1}", 7, { 9, 2, 4, 4, NSCEN, 65, 2 }, set07N8 },
-    { "DEV_1(BASE(6)) x vals3 x colperm4 x tune8 x type4 x {LU,ILU} x scenario x ws-fill-estimate5 x heap-fill3", 10, { 9, 37, 3, 4, 8, 4, 2, NSCEN, 5, 3 }, set07 },
-    { "row storage + equilibration: DEV_1(BASE(6)) x colperm4 x tune8 x type4 x scenario x fill5", 7, { 9, 37, 4, 8, 4, NSCEN, 5 }, set07R },
+    { "DEV_1(BASE(6)) x vals2 x colperm4 x tune6 x type4 x {LU,ILU} x scenario x ws-fill-estimate5 (heap fill pattern cycles with the scenario)", 9, { 9, 37, 2, 4, 6, 4, 2, NSCEN, 5 }, set07q },
+    { "row storage + equilibration: DEV_1(BASE(6)) x colperm4 x tune4 x type4 x scenario x fill5", 7, { 9, 37, 4, 4, 4, NSCEN, 5 }, set07R },
     { "incomplete LU, every initial capacity nnz(A)..4*nnz(A) of the growable arrays (fractional fill factor): {DEV_1(BASE(8)) first 24 deviations NATURAL, 60 generated 12x12 patterns x {NATURAL,COLAMD}, 12x12 {arrow block + tridiagonal block, two arrow blocks} x dev{0..19}} x tune4 x type4 x {NODROP, BASIC 1e-4, BASIC .5} x capacity offset 0..239", 5, { 9 * 24 + 120 + 40, 4, 4, 3, 240 }, set07Cap },
 };
 static long sz_07(int tier) { return tier ? fam_total(F07T, NF(F07T)) : fam_total(F07Q, NF(F07Q)); }
